@@ -181,11 +181,12 @@ def main(run: Run):
     # ---- end to end: real BgpServer + RTR client against loopback caches ----
     e2e = []
     if run.replay:
-        for g in ("e2e-clean", "e2e-free"):
+        for g in ("e2e-twin", "e2e-clean", "e2e-free"):
             e2e.append((g, run.replay_behaviours(g)))
     else:
-        e2e.append(("e2e-clean", gen_e2e(run, True, 900 if thorough else 220, 30, run.seed * 10 + 1)))
-        e2e.append(("e2e-free", gen_e2e(run, False, 60 if thorough else 12, 30, run.seed * 10 + 2)))
+        e2e.append(("e2e-twin", gen_e2e(run, False, 600 if thorough else 150, 36, run.seed * 10 + 3, focus="twin")))
+        e2e.append(("e2e-clean", gen_e2e(run, True, 800 if thorough else 180, 30, run.seed * 10 + 1)))
+        e2e.append(("e2e-free", gen_e2e(run, False, 200 if thorough else 40, 30, run.seed * 10 + 2)))
     left = 0
     for g, behs in e2e:
         if not behs:
@@ -197,7 +198,7 @@ def main(run: Run):
                         any(x["c"] == row["c"] for x in row["obs"]["table"]):
                     left += 1
         if not staged_validate(run, "RpkiTrace", "RpkiTrace.cfg", traces, behs, known_cfg="RpkiKF.cfg", group=g,
-                               conf_cfg="RpkiConf.cfg", batch=(10 if g == "e2e-free" else 400)):
+                               conf_cfg="RpkiConf.cfg", batch=400):
             break
     # informational, not a verdict: the property text does not say that a reset must drop the records
     run.extra["resetrpki_calls_that_left_records_of_the_cache"] = left
@@ -211,7 +212,9 @@ RULE = ("(1) white box: every ROA set of <=2 (quick) / <=3 (thorough) records pe
         "a covering record for some route. (2) end to end: TLC -simulate histories of AddRpki/DeleteRpki/"
         "EnableRpki/DisableRpki/ResetRpki(soft), RTR PDUs of two protocol-abiding loopback caches (cache "
         "response, v4/v6 announce/withdraw incl. duplicates and unknown records, end of data with same/new "
-        "session id, serial notify, cache reset, error report), connection loss and route injection, executed "
+        "session id, serial notify, cache reset, error report), connection loss and route injection, in three "
+        "groups (twin: both caches serve the same <=2 records of one bucket, re-announce and withdraw them in "
+        "full and incremental responses with serial/session resets in between; clean; free), executed "
         "on a real BgpServer; ListRpkiTable/ListPath/policy marks judged by RpkiTrace.tla; non-trivial = "
         "distinct exact table states that are not empty, distinct (route, covering set) verdicts, distinct "
         "policy marks other than not-found")
